@@ -209,6 +209,24 @@ func runC14(c *Ctx) {
 		})
 	}
 	c.Floor("C14.N3-who-sends", 2)
+	// every announce-triggered sync that was started ends in exactly one notification — also one that fails while the
+	// subscriber is closing (listeners get the error, then their channel closes)
+	{
+		n := 0
+		for _, f := range c.Funcs(dagsyncPkg) {
+			for _, cs := range c.Calls(f.SSA, Call("Swap[announce.Announce]")) {
+				if len(cs.X.Args) < 2 || cs.X.Args[1].Op != "nil" {
+					continue
+				}
+				n++
+				c08OneOutcome(c, "C14.N3-every-outcome-notified", topFunc(cs.Fn), cs)
+			}
+		}
+		if n == 0 {
+			c.Unk("C14.N3-every-outcome-notified", "dagsync › announce handler", token.NoPos, "no function takes the pending announcement")
+		}
+		c.Floor("C14.N3-every-outcome-notified", 3)
+	}
 	c.Floor("C14.N2-latest-before-event", 3)
 	c.Floor("C14.N5-event-fields", 2)
 	// callers of the success notifier pass the sync's own head and count
@@ -313,6 +331,37 @@ func c14Distributor(c *Ctx, dist *ssa.Function) {
 			if _, ok := Match(Bin("<", Any(), Op("builtin", "len", Is(list))), cond); ok && head.Succs[0] == snd.Block() {
 				// body returns to the head only
 				uncond = len(snd.Block().Succs) == 1 && snd.Block().Succs[0] == head
+				if !uncond {
+					// the send is the first thing the body does; what follows it (a log line under some test, say)
+					// stays inside the loop: no block of the body leaves it
+					for _, l := range naturalLoops(dist) {
+						if l.Head != head || !l.Body[snd.Block()] {
+							continue
+						}
+						uncond = true
+						for u := range l.Body {
+							if u == head {
+								continue
+							}
+							for _, v := range u.Succs {
+								if !l.Body[v] {
+									uncond = false
+								}
+							}
+							// nothing else in the body blocks or sends
+							for _, in := range u.Instrs {
+								switch in.(type) {
+								case *ssa.Select, *ssa.Go, *ssa.Defer:
+									uncond = false
+								case *ssa.Send:
+									if in != ssa.Instruction(snd) {
+										uncond = false
+									}
+								}
+							}
+						}
+					}
+				}
 			}
 		}
 	}
@@ -511,6 +560,19 @@ func listenerQueuesUnbounded(c *Ctx, rule string) {
 					rx := c.RetX(r, 0)
 					if _, ok := Match(CallLike([]string{"chanqueue.ChanQueue[", ").Out["}, Is(b["q"])), rx); ok {
 						rets++
+					} else if m2, ok2 := Match(CallLike([]string{"chanqueue.ChanQueue[", ").Out["}, Bind("r")), rx); ok2 && rx.V != nil {
+						// Out() taken early from the variable that holds the queue (which a later cancel may clear)
+						rr := m2["r"]
+						if at, isIn := rx.V.(ssa.Instruction); isIn {
+							if v := c.ReachingStore(rr, at); v != nil {
+								rr = v
+							}
+						}
+						if Same(rr, b["q"]) {
+							rets++
+						} else {
+							rets -= 100
+						}
 					} else {
 						rets -= 100
 					}
